@@ -80,9 +80,19 @@ func InputFromPaths(paths []string, prefix string, versionsMap map[string]ast.Re
 
 			parserOptions := parse.ParserOptions()
 
+			// the keys of the versions map are relative to the prefix (i.e. the root), so make
+			// sure that paths relative to the working directory are resolved the same way as
+			// absolute paths are
+			pathFromRoot := path
+			if filepath.IsAbs(prefix) && !filepath.IsAbs(path) {
+				if abs, err := filepath.Abs(path); err == nil {
+					pathFromRoot = abs
+				}
+			}
+
 			parserOptions.RegoVersion = RegoVersionFromVersionsMap(
 				versionsMap,
-				strings.TrimPrefix(path, prefix),
+				strings.TrimPrefix(pathFromRoot, prefix),
 				ast.RegoUndefined,
 			)
 
